@@ -1,4 +1,4 @@
-from ...utils.bitfun import encode_imm32, align, wrap_negative
+from ...utils.bitfun import encode_imm32, align, wrap_negative, wrap_signed
 from ..encoding import Relocation
 from .isa import ArmToken, arm_isa
 
@@ -26,7 +26,7 @@ class Imm24Relocation(Relocation):
         assert sym_value % 4 == 0
         assert reloc_value % 4 == 0
         offset = sym_value - (reloc_value + 8)
-        return wrap_negative(offset >> 2, 24)
+        return wrap_signed(offset >> 2, 24)
 
 
 @arm_isa.register_relocation
